@@ -101,6 +101,15 @@ for _t in ("generator", "iterator", "map", "dictkeys", "dictitems", "enumerate",
     INVALID_PROBES.append({"kids": [_T("a"), {"k": "bad", "t": _t}], "dicts": [[["id", S_("i")]]], "kw": [["title", S_("t")]]})
     INVALID_PROBES.append({"kids": [{"k": "list", "t": "list", "c": [{"k": "bad", "t": _t}]}], "dicts": [], "kw": []})
 
+# values that are not attribute values, under names that suggest a conversion (a date for datetime=, a path for src=, a list for
+# class_=, a dict for style= ...): every function refuses them exactly as Tag() does
+_BAD_ATTRS = [("datetime", "date"), ("datetime", "datetime"), ("datetime", "time"), ("src", "path"), ("href", "path"), ("class_", "list"), ("class_", "set"), ("style", "dict"),
+              ("data", "bytes"), ("value", "decimal"), ("width", "fraction"), ("id", "uuid"), ("onclick", "callable"), ("data_x", "object"), ("points", "tuple"), ("viewBox", "tuple"),
+              ("dur", "timedelta"), ("d", "list"), ("transform", "complex"), ("srcset", "list"), ("content", "dict"), ("title", "bytes"), ("for_", "object"), ("aria_hidden", "object")]
+for _n, _b in _BAD_ATTRS:
+    INVALID_PROBES.append({"kids": [], "dicts": [], "kw": [[_n, {"t": "bad", "v": _b}]]})
+    INVALID_PROBES.append({"kids": [_T("k")], "dicts": [[[_n.rstrip("_").replace("_", "-"), {"t": "bad", "v": _b}]]], "kw": [["id", S_("i")]]})
+
 LARGE_PROBES = [
     {"kids": [gen.TAG("i", _T("k%d" % k), ws=False) for k in range(1100)] + [{"k": "list", "t": "taglist", "c": [gen.TAG("b", ws=False), gen.TAG("u", ws=False)]}]
              + [{"k": "list", "t": "list", "c": [gen.TAG("s", ws=False), {"k": "list", "t": "tuple", "c": [gen.TAG("q", ws=False)]}]}], "dicts": [], "kw": []},
@@ -231,7 +240,12 @@ def check_function(ctx, modname, name, f, inline, n_random):
             ctx.violation("pass-through-differs", "%s.%s(*a, **k) with more than a thousand children differs from Tag(%r, *a, ...)" % (modname, name, name),
                           dict(wit, n_children=(len(got.children), len(want.children))))
             return
-    n_all3 = len(probes) + len(STRUCTURE_PROBES)
+    # the function's own element as its only / first / last child, and as both children
+    own = lambda: gen.TAG(name, _T("inner"), ws=default, via_fn=False)   # noqa: E731
+    probes += [{"kids": [own()], "dicts": [], "kw": []}, {"kids": [own(), _T("t")], "dicts": [], "kw": []}, {"kids": [_T("t"), own()], "dicts": [], "kw": []},
+               {"kids": [own(), own()], "dicts": [], "kw": []}, {"kids": [{"k": "list", "t": "taglist", "c": [own()]}], "dicts": [], "kw": []},
+               {"kids": [gen.TAG(name, ws=not default, via_fn=False)], "dicts": [], "kw": []}]
+    n_all3 = len(probes)
     probes += STRUCTURE_PROBES + ATTRIBUTE_PROBES + INVALID_PROBES
     n_fixed = len(probes)
     import zlib as _zlib
@@ -268,6 +282,8 @@ def check_function(ctx, modname, name, f, inline, n_random):
         if fp(got) != fp(want):
             ctx.violation("pass-through-differs", "%s.%s(*a, **k) differs structurally from Tag(%r, *a, _add_ws=%r, **k)" % (modname, name, name, default), w2)
             return
+        if k_ % 3 and k_ < n_fixed:
+            continue   # (structurally identical by fingerprint; the rendering is compared for every third fixed probe and all random ones)
         try:
             sa, sb = str(got), str(want)
         except Exception:
